@@ -91,6 +91,9 @@ func vMultipartService(url string, req *http.Request) (*http.Response, bool) {
 	opsPart, _ := mp["operations"].(map[string]interface{})
 	mapPart, _ := mp["map"].(map[string]interface{})
 	verifAssert(opsPart != nil && mapPart != nil, "a multipart call carries operations and map")
+	// a request with files has to survive what plain requests survive on the way to the service (a 307/308
+	// redirect, a stale keep-alive connection): net/http can send a body again only through Request.GetBody
+	verifAssert(req.GetBody != nil, "the multipart request can be sent again by the HTTP client (Request.GetBody is set)")
 	var op requests.Request
 	opsBytes, _ := opsPart["data"].([]byte)
 	verifAssert(json.Unmarshal(opsBytes, &op) == nil, "operations is a JSON request")
